@@ -24,6 +24,26 @@ int seam_is_alloc(const buffer *);
 
 #define MAXH 8
 
+/* sizes at the limits are written symbolically: "max-k" = SIZE_MAX-k, "smax-k" = LONG_MAX-k, "smax+k" */
+#include <limits.h>
+static size_t drv_size(const struct cmd *c, const char *key, size_t def)
+{
+	const char *r = drv_raw(c, key);
+	if (!r || !*r) return def;
+	if (!strncmp(r, "max-", 4)) return SIZE_MAX - (size_t) strtoull(r + 4, 0, 0);
+	if (!strncmp(r, "smax-", 5)) return (size_t) LONG_MAX - (size_t) strtoull(r + 5, 0, 0);
+	if (!strncmp(r, "smax+", 5)) return (size_t) LONG_MAX + (size_t) strtoull(r + 5, 0, 0);
+	return (size_t) strtoull(r, 0, 0);
+}
+static long drv_long(const struct cmd *c, const char *key, long def)
+{
+	const char *r = drv_raw(c, key);
+	if (!r || !*r) return def;
+	if (!strncmp(r, "smax-", 5)) return LONG_MAX - strtol(r + 5, 0, 0);
+	return strtol(r, 0, 0);
+}
+static int huge_len;
+
 struct Dummy { int x; };
 
 /* accessors for protected members (no behaviour added) */
@@ -195,11 +215,11 @@ static void step_xarr(struct cmd *c, int h, uint8_t *data, size_t dl, size_t siz
 	const char *a = c->action;
 	XArr &ar = A[h];
 	buffer *b = hbuf(h);
-	int zero = (int) drv_int(c, "zero", 0);
+	int zero = huge_len || (int) drv_int(c, "zero", 0);
 
 	if (!strcmp(a, "xctor")) {
 		if (b) { answer(c, "skipped", 0, 0, size0, used0, 0); return; }
-		static_cast<array &>(ar) = array(drv_uint(c, "cap", 0));
+		static_cast<array &>(ar) = array(drv_size(c, "cap", 0));
 		answer(c, "ok", 0, 0, size0, used0, 0);
 	}
 	else if (!strcmp(a, "new")) {
@@ -226,7 +246,7 @@ static void step_xarr(struct cmd *c, int h, uint8_t *data, size_t dl, size_t siz
 		answer(c, p ? "ok" : "refused", 0, 0, size0, used0, 0);
 	}
 	else if (!strcmp(a, "xinsert")) {
-		void *p = ar.insert(drv_uint(c, "pos", 0), dl, zero ? 0 : data);
+		void *p = ar.insert(drv_size(c, "pos", 0), dl, zero ? 0 : data);
 		answer(c, p ? "ok" : "refused", 0, 0, size0, used0, 0);
 	}
 	else if (!strcmp(a, "xset")) {
@@ -235,7 +255,7 @@ static void step_xarr(struct cmd *c, int h, uint8_t *data, size_t dl, size_t siz
 	}
 	else if (!strcmp(a, "xsetlength")) {
 		if (!b || b->shared() || b->immutable()) { answer(c, "skipped", 0, 0, size0, used0, 0); return; }
-		bool r = static_cast<array::content *>(b)->set_length(drv_uint(c, "len", 0));
+		bool r = static_cast<array::content *>(b)->set_length(drv_size(c, "len", 0));
 		answer(c, r ? "ok" : "refused", 0, 0, size0, used0, 0);
 	}
 	else if (!strcmp(a, "xsetvalue")) {
@@ -269,7 +289,7 @@ static void step_xarr(struct cmd *c, int h, uint8_t *data, size_t dl, size_t siz
 		}
 	}
 	else if (!strcmp(a, "slicewrite")) {
-		size_t off = drv_uint(c, "off", 0), len = drv_uint(c, "len", 0);
+		size_t off = drv_size(c, "off", 0), len = drv_size(c, "len", 0);
 		/* the slice takes the array over (sole holder of what the handle held), its
 		 * window is set with shift/trim, and the handle gets the slice's array back */
 		XSlice sl(ar);
@@ -277,7 +297,7 @@ static void step_xarr(struct cmd *c, int h, uint8_t *data, size_t dl, size_t siz
 		if (off + len > total) { answer(c, "skipped", 0, 0, size0, used0, 0); return; }
 		static_cast<array &>(ar) = array();
 		bool w = sl.shift((ssize_t) off) && sl.trim((ssize_t) (total - off - len));
-		ssize_t r = w ? sl.write(drv_uint(c, "nblk", 0), zero ? 0 : data, drv_uint(c, "esz", 1)) : -1000;
+		ssize_t r = w ? sl.write(drv_size(c, "nblk", 0), zero ? 0 : data, drv_size(c, "esz", 1)) : -1000;
 		static_cast<array &>(ar) = static_cast<const array &>(sl);
 		if (r < 0) answer(c, w ? "refused" : "window", 0, 0, size0, used0, r);
 		else {
@@ -287,8 +307,8 @@ static void step_xarr(struct cmd *c, int h, uint8_t *data, size_t dl, size_t siz
 	}
 	else if (!strcmp(a, "bufinsert")) {
 		if (!b || b->shared()) { answer(c, "skipped", 0, 0, size0, used0, 0); return; }
-		void *p = b->insert(drv_uint(c, "pos", 0), dl);
-		if (p && dl) memcpy(p, data, dl);
+		void *p = b->insert(drv_size(c, "pos", 0), dl);
+		if (p && dl && !huge_len) memcpy(p, data, dl);
 		answer(c, p ? "ok" : "refused", 0, 0, size0, used0, 0);
 	}
 	else {
@@ -312,7 +332,7 @@ static void step_typed(struct cmd *c, ARR *arrs, int h, uint8_t *data, size_t dl
 	const char *a = c->action;
 	ARR &ar = arrs[h];
 	long v = dl ? data[0] : 0;
-	long pos = (long) drv_int(c, "pos", 0);
+	long pos = drv_long(c, "pos", 0);
 
 	if (!strcmp(a, "tctor")) {
 		if (hbuf(h)) { answer(c, "skipped", 0, 0, size0, used0, 0); return; }
@@ -339,11 +359,11 @@ static void step_typed(struct cmd *c, ARR *arrs, int h, uint8_t *data, size_t dl
 		answer(c, p ? "ok" : "refused", &o, p ? 1 : 0, size0, used0, 0);
 	}
 	else if (!strcmp(a, "treserve")) {
-		bool r = ar.reserve((long) drv_int(c, "len", 0));
+		bool r = ar.reserve(drv_long(c, "len", 0));
 		answer(c, r ? "ok" : "refused", 0, 0, size0, used0, 0);
 	}
 	else if (!strcmp(a, "tresize")) {
-		bool r = ar.resize((long) drv_int(c, "len", 0));
+		bool r = ar.resize(drv_long(c, "len", 0));
 		answer(c, r ? "ok" : "refused", 0, 0, size0, used0, 0);
 	}
 	else {
@@ -417,6 +437,11 @@ static void drv_step(struct cmd *c)
 		used0 = bused(hbuf(h)) / esize;
 	}
 	if (drv_has(c, "data")) data = drv_bytes(c, "data", &dl);
+	huge_len = 0;
+	if (drv_size(c, "hl", 0)) {          /* a length at the limits: no data exists for it */
+		dl = drv_size(c, "hl", 0);
+		huge_len = 1;
+	}
 
 	if (!strcmp(api, "xarr")) step_xarr(c, h, data, dl, size0, used0);
 	else if (!strcmp(api, "xtyped")) step_typed<TA, uint8_t>(c, T, h, data, dl, size0, used0, 0);
